@@ -7,7 +7,13 @@ import sys
 
 sys.path.insert(0, os.path.dirname(os.path.abspath(__file__)))
 import compat  # noqa: F401,E402
+import guard  # noqa: E402
 from xandikos import web  # noqa: E402
+
+_d = sys.argv[sys.argv.index("-d") + 1] if "-d" in sys.argv else None
+if _d:
+    guard.allow(_d)
+guard.install(tmp_in=os.path.dirname(os.path.abspath(_d)) if _d else None)
 
 parser = argparse.ArgumentParser()
 web.add_parser(parser)
